@@ -13,7 +13,9 @@ the model's "hang"):
   machine leaves the list after finitely many steps within 2^24 ms makes `seek` return for EVERY `t`;
   `machine_runs_seek_returns` : a command list that runs for ever (loop count 0, backward jumps) makes `seek` return for
   every `t` up to any horizon the machine passes — time has to pass in every lap for that, which is precisely what a
-  zero-time cycle lacks.
+  zero-time cycle lacks;
+* `reachable_seek_returns`, `machine_history_seek_returns` : the same for every player reachable by seeks (any history
+  through one player, back-jumps and rewinds included), not only a fresh one.
 -/
 import Sb.Properties.C02Machine
 import Sb.Properties.C03
@@ -96,9 +98,151 @@ theorem machine_runs_seek_returns (cs : List LCmd) (hw : WFL cs) (K H : Nat) (hr
   have := hr.past
   omega
 
+/-! ### … and for every player reachable by seeks, not only a fresh one -/
+
+/-- the player runs in parallel with chain point `n` -/
+def Par (prog : Bytes) (q : Player) (n : Nat) : Prop := q.next = (chain prog n).next ∧ Sim q.exec (chain prog n).exec
+
+theorem par_adv (prog : Bytes) (q : Player) (n : Nat) (h : Par prog q n) : Par prog (adv q) (n + 1) := by
+  obtain ⟨hn, hs⟩ := h
+  have hs' : Sim (step q.exec q.next) (step (chain prog n).exec (chain prog n).next) := by
+    rw [hn]; exact step_sim hs _
+  refine ⟨?_, ?_⟩
+  · rw [chain_succ, adv_next, adv_next, hs'.nextWakeup, hn]
+  · rw [chain_exec, adv_exec]; exact hs'
+
+theorem seekLoop_returns_par (prog : Bytes) (t n0 : Nat) (h : t ≤ (chain prog n0).next) :
+    ∀ d n q, n + d = n0 → Par prog q n → ∀ fuel, d + 1 ≤ fuel → ∃ q', seekLoop t fuel q = .ok q' := by
+  intro d
+  induction d with
+  | zero =>
+    intro n q hn hp fuel hf
+    obtain ⟨f, rfl⟩ : ∃ f, fuel = f + 1 := ⟨fuel - 1, by omega⟩
+    rw [seekLoop_succ]
+    have : ¬ (t > q.next) := by
+      have : n = n0 := by omega
+      subst this; rw [hp.1]; omega
+    rw [if_neg this]
+    exact ⟨_, rfl⟩
+  | succ d ih =>
+    intro n q hn hp fuel hf
+    obtain ⟨f, rfl⟩ : ∃ f, fuel = f + 1 := ⟨fuel - 1, by omega⟩
+    rw [seekLoop_succ]
+    by_cases ht : t > q.next
+    · rw [if_pos ht]
+      exact ih (n + 1) (adv q) (by omega) (par_adv prog q n hp) f (by omega)
+    · rw [if_neg ht]
+      exact ⟨_, rfl⟩
+
+/-- a rewound player (program counter 0, reset pending) falls in with the chain at its first step -/
+theorem seekLoop_returns_rewound (prog : Bytes) (t n0 : Nat) (h : t ≤ (chain prog n0).next) (q : Player)
+    (hq0 : q.next = 0) (hr : RSim q.exec (chain prog 0).exec) : ∃ q', seekLoop t (n0 + 2) q = .ok q' := by
+  have e : n0 + 2 = (n0 + 1) + 1 := rfl
+  rw [e, seekLoop_succ]
+  by_cases ht : t > q.next
+  · rw [if_pos ht]
+    have hc0 : (chain prog 0).next = 0 := rfl
+    have hpar : Par prog (adv q) 1 := by
+      have hs : Sim (step q.exec q.next) (step (chain prog 0).exec (chain prog 0).next) := by
+        rw [hq0, hc0]; exact rsim_step hr 0
+      refine ⟨?_, ?_⟩
+      · rw [chain_succ, adv_next, adv_next, hs.nextWakeup, hq0, hc0]
+      · rw [chain_exec, adv_exec]; exact hs
+    by_cases h1 : 1 ≤ n0
+    · exact seekLoop_returns_par prog t n0 h (n0 - 1) 1 (adv q) (by omega) hpar (n0 + 1) (by omega)
+    · have : n0 = 0 := by omega
+      subst this
+      rw [hc0] at h
+      omega
+  · rw [if_neg ht]
+    exact ⟨_, rfl⟩
+
+/-- a player past the end of the program moves its wake-up time on by itself -/
+theorem seekLoop_returns_dead (t : Nat) : ∀ d (q : Player) (x : Exec), DeadEq q.exec x → t ≤ q.next + d →
+    ∃ q', seekLoop t (d + 1) q = .ok q' := by
+  intro d
+  induction d with
+  | zero =>
+    intro q x _ ht
+    rw [seekLoop_succ, if_neg (by omega)]
+    exact ⟨_, rfl⟩
+  | succ d ih =>
+    intro q x hd ht
+    rw [seekLoop_succ]
+    by_cases hgt : t > q.next
+    · rw [if_pos hgt]
+      have hd' : DeadEq (adv q).exec x := by rw [adv_exec]; exact hd.step _
+      refine ih (adv q) x hd' ?_
+      rw [adv_next, dead_step hd.reset hd.ended]
+      simp only
+      have hu : u64 (q.next + 60000) = (q.next + 60000) % 18446744073709551616 := rfl
+      split
+      · omega
+      · rename_i hnlt
+        rw [hu] at hnlt ⊢
+        omega
+    · rw [if_neg hgt]
+      exact ⟨_, rfl⟩
+
+/-- **every player reachable by seeks returns from the next seek**, as soon as the program's wake-up chain reaches the
+timestamp (for programs that end: always) -/
+theorem reachable_seek_returns (prog : Bytes) (p : Player) (hinv : Inv prog p) (t n0 : Nat)
+    (h : t ≤ (chain prog n0).next) : ∃ fuel r, p.seek t fuel = .ok r := by
+  have hfin : ∀ q, (∃ fuel q', seekLoop t fuel q = .ok q') →
+      ∃ fuel r, (seekLoop t fuel q).map (fun q => finish q t) = .ok r := by
+    rintro q ⟨fuel, q', hq⟩
+    exact ⟨fuel, _, by rw [hq]; rfl⟩
+  have hprog : p.exec.prog = (Player.fresh prog).exec.prog ∧ p.exec.size = (Player.fresh prog).exec.size := by
+    rcases hinv with ⟨_, _, hr⟩ | ⟨k, _, _, hs, _⟩ | ⟨m, _, _, _, hd, _⟩
+    · exact ⟨hr.prog, hr.size⟩
+    · exact ⟨hs.prog.trans (chain_prog prog k).1, hs.size.trans (chain_prog prog k).2⟩
+    · exact ⟨hd.prog.trans (chain_prog prog m).1, hd.size.trans (chain_prog prog m).2⟩
+  have key : ∃ fuel q', seekLoop t fuel
+      (if t < p.current then { exec := rewindExec p.exec, current := 0, next := 0 } else p) = .ok q' := by
+    by_cases hlt : t < p.current
+    · rw [if_pos hlt]
+      obtain ⟨e0, he0⟩ := fresh_rewound prog
+      have hr : RSim (rewindExec p.exec) (chain prog 0).exec := by
+        show RSim (rewindExec p.exec) (Player.fresh prog).exec
+        rw [he0]
+        apply rewind_rsim
+        · rw [hprog.1, he0]; rfl
+        · rw [hprog.2, he0]; rfl
+      obtain ⟨q', hq'⟩ := seekLoop_returns_rewound prog t n0 h
+        { exec := rewindExec p.exec, current := 0, next := 0 } rfl hr
+      exact ⟨_, q', hq'⟩
+    · rw [if_neg hlt]
+      rcases hinv with ⟨_, hn, hr⟩ | ⟨k, hk, hl, hs, hn, hc1, hc2, _, _⟩ | ⟨m, _, _, _, hd, _⟩
+      · obtain ⟨q', hq'⟩ := seekLoop_returns_rewound prog t n0 h p hn hr
+        exact ⟨_, q', hq'⟩
+      · -- live at chain point k: the chain reaches t at max n0 k
+        by_cases hk0 : k ≤ n0
+        · obtain ⟨q', hq'⟩ := seekLoop_returns_par prog t n0 h (n0 - k) k p (by omega) ⟨hn, hs⟩ (n0 - k + 1) (by omega)
+          exact ⟨_, q', hq'⟩
+        · have h1 := chain_next_le_current prog n0 k (by omega) (hl.mono (by omega))
+          have htk : t ≤ (chain prog k).next := by omega
+          obtain ⟨q', hq'⟩ := seekLoop_returns_par prog t k htk 0 k p (by omega) ⟨hn, hs⟩ 1 (by omega)
+          exact ⟨_, q', hq'⟩
+      · obtain ⟨q', hq'⟩ := seekLoop_returns_dead t t p _ hd (by omega)
+        exact ⟨_, q', hq'⟩
+  obtain ⟨fuel, r, hr⟩ := hfin _ key
+  exact ⟨fuel, r, by rw [seek_eq]; exact hr⟩
+
+/-- **a command list whose abstract machine terminates never hangs, whatever was asked before**: after any history
+of seeks through one player, the next seek returns, for every timestamp -/
+theorem machine_history_seek_returns (cs : List LCmd) (hw : WFL cs) (K : Nat) (ht : Terminates cs K)
+    (hist : List (Nat × Nat)) (p : Player) (hp : seekAll (Player.fresh (encodeL cs)) hist = .ok p) (t : Nat) :
+    ∃ fuel r, p.seek t fuel = .ok r := by
+  have hinv := reachable_inv (encodeL cs) (m_fades_short cs hw K ht) hist _ p (inv_fresh (encodeL cs)) hp
+  have hend := (machine_end cs hw K ht.k1 ht.live ht.off ht.time).1
+  exact reachable_seek_returns (encodeL cs) p hinv t (K + 1 + t)
+    (dead_next_grows (encodeL cs) (K + 1) (by omega) (mchain_live cs hw K ht) hend t)
+
 /-- non-vacuity: the looping, the jumping and the terminating demonstration programs of C02 -/
 example (t : Nat) : ∃ fuel r, (Player.fresh (encodeL demoL)).seek t fuel = .ok r :=
   machine_terminates_seek_returns demoL demoL_wf 11 demoL_terminates t
+example (hist : List (Nat × Nat)) (p : Player) (hp : seekAll (Player.fresh (encodeL demoT)) hist = .ok p) (t : Nat) :
+    ∃ fuel r, p.seek t fuel = .ok r := machine_history_seek_returns demoT demoT_wf 5 demoT_terminates hist p hp t
 example (t : Nat) (ht : t ≤ 4000) : ∃ r, (Player.fresh (encodeL demoJ)).seek t 32 = .ok r :=
   machine_runs_seek_returns demoJ demoJ_wf 31 4000 demoJ_runs t ht
 example (t : Nat) (ht : t ≤ 3000) : ∃ r, (Player.fresh (encodeL demoForever)).seek t 41 = .ok r :=
